@@ -1258,6 +1258,27 @@ def build(repo):
                     if len(fns) != 1 or fns[0].name != "serialize":
                         raise Unrecognised(f"{rel}:{line}: impl Serialize for SecretKey without a single fn serialize")
                     ser_body = parse_ser_body(body_of_fn(sc, fns[0]), sc.consts, f"{rel}:{line}")
+                if im.trait == "Deserialize":
+                    # the only recognised shape builds the value and nothing else: an error constructed from the text read
+                    # (serde's `invalid_value(Unexpected::Str(&s), …)` idiom) would carry the key into whatever prints it
+                    if len(fns) != 1 or fns[0].name != "deserialize":
+                        raise Unrecognised(f"{rel}:{line}: impl Deserialize for SecretKey without a single fn deserialize")
+                    txt = norm(body_of_fn(sc, fns[0]))
+                    if txt not in ("<String as Deserialize>::deserialize(deserializer).map(SecretKey::from)",
+                                   "<String as Deserialize>::deserialize(deserializer).map(Self::from)",
+                                   "String::deserialize(deserializer).map(SecretKey::from)",
+                                   "String::deserialize(deserializer).map(Self::from)"):
+                        raise Unrecognised(f"{rel}:{line}: Deserialize body of SecretKey is not the recognised shape "
+                                           f"`<String as Deserialize>::deserialize(deserializer).map(SecretKey::from)`: {txt}")
+            # no function of an impl of SecretKey (inherent or trait) formats, logs, prints or raises anything: inside these
+            # bodies every value is the key or derived from it, whatever it is called
+            for f in sc.fns:
+                if im.start < f.start < im.end:
+                    b = body_of_fn(sc, f)
+                    for k in range(len(b) - 1):
+                        if b[k].k == "ident" and b[k + 1].t == "!" and (k + 2 < len(b) and b[k + 2].t in ("(", "[", "{")):
+                            raise Unrecognised(f"{rel}:{sc.toks[im.kw].line}: macro `{b[k].t}!` inside `{f.name}` of an impl of "
+                                               f"{SECRET_TYPE}: not read (a value formatted there is the key)")
     for d in sk["derives"]:
         sk_impls.append({"trait": d, "file": SECRET_FILE, "line": sk["line"], "derived": True})
     if dbg_body is None and "Debug" not in sk["derives"]:
